@@ -50,7 +50,7 @@ def dump_event(e, id):
         'meta': meta,
     }
 
-    return json.dumps(data)
+    return json.dumps(data).replace('~', '\\u007e')  # never contains the packet delimiter
 
 
 def dump_value(v):
@@ -67,7 +67,7 @@ def dump_value(v):
         'value': v._value,
         'meta': meta,
     }
-    return json.dumps(data)
+    return json.dumps(data).replace('~', '\\u007e')  # never contains the packet delimiter
 
 
 def load_value(v):
